@@ -34,7 +34,7 @@ structure CurInv (cfg : Cfg) (k : Iter V) (Oe : Pts V) (target : Int → Option 
   same : ∀ b ∈ k.st.blocks, ∃ b0 ∈ orig, SameStatic b b0
   lens : k.its.length = k.buf.length
   rwf : ∀ f ∈ allRuns k.its k.buf, RunsWF f
-  fresh : ∀ f ∈ allRuns k.its k.buf, ∀ r ∈ f, ∀ b ∈ r.2, Fresh b
+  fresh : ∀ k', ∀ b ∈ blocksFor (allRuns k.its k.buf) k', Fresh b
   cap : ∀ k', (blocksFor (allRuns k.its k.buf) k').length ≤ 20
   above : ∀ f ∈ allRuns k.its k.buf, ∀ r ∈ f, keyLt k.key r.1 = true
 
@@ -83,5 +83,537 @@ theorem kinv_fresh (bl : List (Block V)) (hf : ∀ b ∈ bl, Fresh b) :
   refine ⟨fun b hb => BlockSt.fresh (hf b hb).1 (hf b hb).2.1 (hf b hb).2.2, ?_, by simp, ?_⟩
   · simpa using asc_nil
   · intro t; simp
+
+
+/-- one conditional `merge<T>()` of `Next`, with `k.merged` empty -/
+theorem mergeIf_phase (cfg : Cfg) (hs : 0 < cfg.size) {T : Int} {st st' : KSt V} {Oe : Pts V}
+    {target : Int → Option V} {orig : List (Block V)} (cond : Bool)
+    (inv : KInv T st Oe target) (hm : st.merged = []) (hlen : st.blocks.length ≤ 20)
+    (hsame : ∀ b ∈ st.blocks, ∃ b0 ∈ orig, SameStatic b b0)
+    (h : mergeIf cfg cond st = .ok st') :
+    (∃ T', KInv T' st' (Oe ++ outPts st'.merged) target) ∧
+    (∀ o ∈ st'.merged, BlockFact cfg.size orig o) ∧
+    (∀ b ∈ st'.blocks, ∃ b0 ∈ orig, SameStatic b b0) ∧
+    st'.blocks.length ≤ 20 ∧
+    (cond = true → st'.merged = [] → st'.mv = [] ∧ st'.blocks = []) ∧
+    (cond = false → st' = st) := by
+  unfold mergeIf at h
+  cases cond with
+  | false =>
+    simp only [Bool.false_eq_true, if_false, pure, Except.pure, Except.ok.injEq] at h
+    subst h
+    refine ⟨⟨T, by rw [hm]; simpa using inv⟩, by rw [hm]; simp, hsame, hlen, by simp, fun _ => rfl⟩
+  | true =>
+    simp only [if_true] at h
+    have so := mergeStep_spec cfg inv hm hlen h
+    obtain ⟨f1, f2⟩ := stepOut_facts so hsame
+    obtain ⟨T', _, inv'⟩ := so.hex
+    exact ⟨⟨T', inv'⟩, f1, f2, Nat.le_trans so.hlen hlen, fun _ => so.hempty hs, by simp⟩
+
+@[simp] theorem popMerged_blocks (st : KSt V) : (popMerged st).blocks = st.blocks := by
+  unfold popMerged; split <;> rfl
+@[simp] theorem popMerged_mv (st : KSt V) : (popMerged st).mv = st.mv := by
+  unfold popMerged; split <;> rfl
+
+theorem blocksFor_nil_of_above {R : List (FileRuns V)} {key : Key}
+    (h : ∀ f ∈ R, ∀ r ∈ f, keyLt key r.1 = true) : blocksFor R key = [] := by
+  simp only [blocksFor, List.flatMap_eq_nil_iff]
+  intro f hf
+  have : f.filter (fun r => decide (r.1 = key)) = [] := by
+    apply List.filter_eq_nil_iff.mpr
+    intro r hr
+    simp only [decide_eq_true_eq]
+    intro heq
+    have := h f hf r hr
+    rw [heq, keyLt_irrefl] at this; cases this
+  rw [this]; simp
+
+theorem mem_blocksFor {R : List (FileRuns V)} {k : Key} {b : Block V} (h : b ∈ blocksFor R k) :
+    ∃ f ∈ R, ∃ r ∈ f, r.1 = k ∧ b ∈ r.2 := by
+  simp only [blocksFor, List.mem_flatMap, List.mem_filter, decide_eq_true_eq] at h
+  obtain ⟨f, hf, r, ⟨hr, hk⟩, hb⟩ := h
+  exact ⟨f, hf, r, hr, hk, hb⟩
+
+/-- `Next` returns with a block of the current key at the head of `k.merged` -/
+theorem caseA_of_merged (cfg : Cfg) {k : Iter V} {Oe : Pts V} {target : Int → Option V} {orig : List (Block V)}
+    (ci : CurInv cfg k Oe target orig) {T2 : Int} {st2 : KSt V} {o : OBlk V} {ms : List (OBlk V)}
+    (hmg : st2.merged = o :: ms)
+    (inv2 : KInv T2 st2 (Oe ++ outPts st2.merged) target)
+    (fact2 : ∀ o ∈ st2.merged, BlockFact cfg.size orig o)
+    (same2 : ∀ b ∈ st2.blocks, ∃ b0 ∈ orig, SameStatic b b0) (len2 : st2.blocks.length ≤ 20) :
+    NextOK cfg k Oe target orig true { k with st := st2 } := by
+  left
+  refine ⟨rfl, rfl, rfl, o, ms, hmg, fact2 o (by rw [hmg]; simp), ?_⟩
+  refine ⟨⟨T2, ?_⟩, ?_, len2, same2, ci.lens, ci.rwf, ci.fresh, ci.cap, ci.above⟩
+  · show KInv T2 st2 (Oe ++ o.pts ++ outPts st2.merged.tail) target
+    rw [hmg] at inv2 ⊢
+    simp only [List.tail_cons]
+    have e : Oe ++ o.pts ++ outPts ms = Oe ++ outPts (o :: ms) := by simp
+    rw [e]; exact inv2
+  · intro x hx
+    show BlockFact cfg.size orig x
+    have : x ∈ st2.merged.tail := hx
+    rw [hmg] at this
+    exact fact2 x (by rw [hmg]; exact List.mem_cons_of_mem _ this)
+
+theorem kst_eta (st : KSt V) (h1 : st.blocks = []) (h2 : st.mv = []) (h3 : st.merged = []) :
+    st = ⟨[], [], []⟩ := by
+  cases st; simp_all
+
+/-- `tsmBatchKeyIterator.Next` -/
+theorem next_spec (cfg : Cfg) (hs : 0 < cfg.size) :
+    ∀ (fuel : Nat) (k : Iter V) (Oe : Pts V) (target : Int → Option V) (orig : List (Block V)),
+      CurInv cfg k Oe target orig →
+      ∀ more k', Iter.next cfg fuel k = .ok (more, k') → NextOK cfg k Oe target orig more k' := by
+  intro fuel
+  induction fuel with
+  | zero => intro k Oe target orig _ more k' h; simp [Iter.next, throw, throwThe, MonadExceptOf.throw] at h
+  | succ fuel ih =>
+    intro k Oe target orig ci more k' h
+    obtain ⟨T, inv⟩ := ci.inv
+    unfold Iter.next at h
+    simp only [bind, Except.bind, pure, Except.pure] at h
+    -- pop
+    by_cases hp : (popMerged k.st).merged.length > 0
+    · rw [if_pos hp] at h
+      simp only [Except.ok.injEq, Prod.mk.injEq] at h
+      obtain ⟨rfl, rfl⟩ := h
+      -- k.merged = m0 :: o :: ms
+      have hpm : popMerged k.st = { k.st with merged := k.st.merged.tail } := by
+        unfold popMerged
+        split
+        · rfl
+        · next hn =>
+          have : k.st.merged = [] := List.length_eq_zero_iff.mp (by omega)
+          cases hst : k.st with
+          | mk b m mg => rw [hst] at this; simp at this; subst this; rfl
+      have hpt : (popMerged k.st).merged = k.st.merged.tail := by rw [hpm]
+      cases hmt : k.st.merged.tail with
+      | nil => rw [hpt, hmt] at hp; simp at hp
+      | cons o ms =>
+        have hmg : (popMerged k.st).merged = o :: ms := by rw [hpt, hmt]
+        apply caseA_of_merged cfg ci hmg (T2 := T)
+        · rw [hmg, ← hmt]
+          exact ⟨by simpa using inv.hb, by simpa using inv.hasc, by simpa using inv.hle, by simpa using inv.hc⟩
+        · intro x hx
+          rw [hmg, ← hmt] at hx
+          exact ci.pend x hx
+        · simpa using ci.same
+        · simpa using ci.len20
+    · rw [if_neg hp] at h
+      -- nothing pending: Oe is everything written so far
+      have hst1 : (popMerged k.st).merged = [] := List.length_eq_zero_iff.mp (by omega)
+      have htail : k.st.merged.tail = [] := by
+        unfold popMerged at hst1
+        split at hst1
+        · exact hst1
+        · next hn =>
+          have : k.st.merged = [] := List.length_eq_zero_iff.mp (by omega)
+          rw [this]; rfl
+      rw [htail] at inv
+      simp only [outPts_nil, List.append_nil] at inv
+      have inv1 : KInv T (popMerged k.st) Oe target :=
+        ⟨by simpa using inv.hb, by simpa using inv.hasc, by simpa using inv.hle, by simpa using inv.hc⟩
+      have len1 : (popMerged k.st).blocks.length ≤ 20 := by simpa using ci.len20
+      have same1 : ∀ b ∈ (popMerged k.st).blocks, ∃ b0 ∈ orig, SameStatic b b0 := by simpa using ci.same
+      generalize popMerged k.st = st1 at h hst1 inv1 len1 same1
+      -- merged values pending?
+      cases h2 : mergeIf cfg (decide (st1.mv.length > 0)) st1 with
+      | error e => rw [h2] at h; simp at h
+      | ok st2 =>
+      rw [h2] at h
+      simp only at h
+      obtain ⟨⟨T2, inv2⟩, fact2, same2, len2, emp2, keep2⟩ :=
+        mergeIf_phase cfg hs (decide (st1.mv.length > 0)) inv1 hst1 len1 same1 h2
+      by_cases hc2 : decide (st1.mv.length > 0) = true ∧ (st2.merged.length > 0 ∨ st2.mv.length > 0)
+      · rw [if_pos hc2] at h
+        simp only [Except.ok.injEq, Prod.mk.injEq] at h
+        obtain ⟨rfl, rfl⟩ := h
+        cases hmg : st2.merged with
+        | nil =>
+          have := emp2 hc2.1 hmg
+          rw [hmg, this.1] at hc2
+          simp at hc2
+        | cons o ms => exact caseA_of_merged cfg ci hmg inv2 fact2 same2 len2
+      · rw [if_neg hc2] at h
+        have hm2 : st2.merged = [] ∧ st2.mv = [] := by
+          by_cases hcond : decide (st1.mv.length > 0) = true
+          · have : ¬ (st2.merged.length > 0 ∨ st2.mv.length > 0) := fun hx => hc2 ⟨hcond, hx⟩
+            exact ⟨List.length_eq_zero_iff.mp (by omega), List.length_eq_zero_iff.mp (by omega)⟩
+          · have hcf : decide (st1.mv.length > 0) = false := by simpa using hcond
+            rw [keep2 hcf]
+            refine ⟨hst1, List.length_eq_zero_iff.mp ?_⟩
+            simp only [decide_eq_false_iff_not] at hcf
+            omega
+        rw [hm2.1] at inv2
+        simp only [outPts_nil, List.append_nil] at inv2
+        -- blocks left from the last read?
+        cases h3 : mergeIf cfg (decide (st2.blocks.length > 0)) st2 with
+        | error e => rw [h3] at h; simp at h
+        | ok st3 =>
+        rw [h3] at h
+        simp only at h
+        obtain ⟨⟨T3, inv3⟩, fact3, same3, len3, emp3, keep3⟩ :=
+          mergeIf_phase cfg hs (decide (st2.blocks.length > 0)) inv2 hm2.1 len2 same2 h3
+        by_cases hc3 : decide (st2.blocks.length > 0) = true ∧ (st3.merged.length > 0 ∨ st3.mv.length > 0)
+        · rw [if_pos hc3] at h
+          simp only [Except.ok.injEq, Prod.mk.injEq] at h
+          obtain ⟨rfl, rfl⟩ := h
+          cases hmg : st3.merged with
+          | nil =>
+            have := emp3 hc3.1 hmg
+            rw [hmg, this.1] at hc3
+            simp at hc3
+          | cons o ms => exact caseA_of_merged cfg ci hmg inv3 fact3 same3 len3
+        · rw [if_neg hc3] at h
+          have hm3 : st3.merged = [] ∧ st3.mv = [] ∧ st3.blocks = [] := by
+            by_cases hcond : decide (st2.blocks.length > 0) = true
+            · have : ¬ (st3.merged.length > 0 ∨ st3.mv.length > 0) := fun hx => hc3 ⟨hcond, hx⟩
+              have hmg : st3.merged = [] := List.length_eq_zero_iff.mp (by omega)
+              exact ⟨hmg, (emp3 hcond hmg).1, (emp3 hcond hmg).2⟩
+            · have hcf : decide (st2.blocks.length > 0) = false := by simpa using hcond
+              rw [keep3 hcf]
+              refine ⟨hm2.1, hm2.2, List.length_eq_zero_iff.mp ?_⟩
+              simp only [decide_eq_false_iff_not] at hcf
+              omega
+          have hst3 := kst_eta st3 hm3.2.2 hm3.2.1 hm3.1
+          subst hst3
+          simp only [outPts_nil, List.append_nil] at inv3
+          -- the current key is complete
+          have ktail : KeyTail cfg.size orig target Oe [] := by
+            refine ⟨by simpa using inv3.hasc, ?_, by simp⟩
+            intro t
+            have := inv3.hc t
+            simpa [restAt] using this
+          right
+          refine ⟨ktail, ?_⟩
+          -- read the next key
+          cases hl : load k.its k.buf with
+          | mk its' r1 =>
+          obtain ⟨buf', key', bl⟩ := r1
+          rw [hl] at h
+          simp only [List.nil_append] at h
+          obtain ⟨l1, l2, l3, l4, l5, l6, l7⟩ := load_spec k.its k.buf ci.lens ci.rwf its' buf' key' bl hl
+          have hnil' : blocksFor (allRuns its' buf') key' = [] := blocksFor_nil_of_above l7
+          by_cases hb0 : bl.length = 0
+          · rw [if_pos hb0] at h
+            simp only [Except.ok.injEq, Prod.mk.injEq] at h
+            obtain ⟨rfl, rfl⟩ := h
+            have hbl : bl = [] := List.length_eq_zero_iff.mp hb0
+            have hall := l5 hbl
+            refine ⟨?_, by simp, ?_⟩
+            · intro k''
+              right
+              refine ⟨?_, Or.inr (fun t => by rw [hall k'']; rfl)⟩
+              show blocksFor (allRuns its' buf') k'' = []
+              by_cases hk : k'' = key'
+              · rw [hk]; exact hnil'
+              · rw [l4 k'' hk]; exact hall k''
+            · intro _ k''
+              show blocksFor (allRuns its' buf') k'' = []
+              by_cases hk : k'' = key'
+              · rw [hk]; exact hnil'
+              · rw [l4 k'' hk]; exact hall k''
+          · rw [if_neg hb0] at h
+            have hbl : bl ≠ [] := fun h0 => hb0 (by rw [h0]; rfl)
+            have hfresh : ∀ b ∈ bl, Fresh b := fun b hb => ci.fresh key' b (by rw [← l3]; exact hb)
+            have inv4 := kinv_fresh bl hfresh
+            cases h5 : mergeStep cfg (⟨bl, [], []⟩ : KSt V) with
+            | error e => rw [h5] at h; simp at h
+            | ok st5 =>
+            rw [h5] at h
+            simp only at h
+            have len4 : bl.length ≤ 20 := by rw [l3]; exact ci.cap key'
+            have so5 := mergeStep_spec cfg inv4 rfl len4 h5
+            obtain ⟨fact5, same5⟩ := stepOut_facts (orig := bl) so5 (fun b hb => ⟨b, hb, SameStatic.refl b⟩)
+            obtain ⟨T5, _, inv5⟩ := so5.hex
+            simp only [List.nil_append] at inv5
+            have len5 : st5.blocks.length ≤ 20 := Nat.le_trans so5.hlen len4
+            have hkey : keyLt k.key key' = true := by
+              obtain ⟨f, hf, r, hr, hrk⟩ := l6 hbl
+              have := ci.above f hf r hr
+              rw [hrk] at this; exact this
+            -- facts about the remaining runs
+            have hfresh' : ∀ k'', ∀ b ∈ blocksFor (allRuns its' buf') k'', Fresh b := by
+              intro k'' b hb
+              by_cases hk : k'' = key'
+              · rw [hk, hnil'] at hb; simp at hb
+              · rw [l4 k'' hk] at hb; exact ci.fresh k'' b hb
+            have hcap' : ∀ k'', (blocksFor (allRuns its' buf') k'').length ≤ 20 := by
+              intro k''
+              by_cases hk : k'' = key'
+              · rw [hk, hnil']; simp
+              · rw [l4 k'' hk]; exact ci.cap k''
+            by_cases hm5 : st5.merged.length = 0
+            · -- the key produced nothing: RETRY
+              rw [if_pos hm5] at h
+              have hmg5 : st5.merged = [] := List.length_eq_zero_iff.mp hm5
+              have he5 := so5.hempty hs hmg5
+              have ci5 : CurInv cfg ({ its := its', buf := buf', key := key', st := st5 } : Iter V) []
+                  (restAt bl) bl := by
+                refine ⟨⟨T5, ?_⟩, ?_, len5, same5, l1, l2, hfresh', hcap', l7⟩
+                · show KInv T5 st5 ([] ++ outPts st5.merged.tail) (restAt bl)
+                  rw [hmg5] at inv5 ⊢
+                  simpa using inv5
+                · intro o ho
+                  have : o ∈ st5.merged.tail := ho
+                  rw [hmg5] at this; simp at this
+              -- the skipped key has no content
+              have hnone : ∀ t, restAt bl t = none := by
+                intro t
+                rw [hmg5] at inv5
+                have := inv5.hc t
+                rw [he5.1, he5.2] at this
+                simpa [restAt] using this
+              have res := ih _ [] (restAt bl) bl ci5 more k' h
+              rcases res with ⟨hmore, hk', hR', o, ms, hmg, hfact, hci⟩ | ⟨_, mv⟩
+              · -- continues with the same (new) key
+                simp only at hk' hR'
+                refine ⟨?_, ?_, by simp [hmore]⟩
+                · intro k''
+                  rw [hR']
+                  by_cases hk : k'' = key'
+                  · right
+                    rw [hk]
+                    exact ⟨hnil', Or.inl ⟨hmore, hk'.symm⟩⟩
+                  · left; exact l4 k'' hk
+                · intro _
+                  rw [hk', ← l3]
+                  refine ⟨hkey, o, ms, hmg, hfact, ?_⟩
+                  simpa using hci
+              · -- moved on past further keys
+                refine ⟨?_, ?_, ?_⟩
+                · intro k''
+                  rcases mv.runs k'' with h1 | ⟨h1, h2⟩
+                  · simp only at h1
+                    by_cases hk : k'' = key'
+                    · right
+                      rw [hk] at h1 ⊢
+                      rw [hnil'] at h1
+                      exact ⟨h1, Or.inr (fun t => by rw [← l3]; exact hnone t)⟩
+                    · left; rw [h1]; exact l4 k'' hk
+                  · right
+                    refine ⟨h1, ?_⟩
+                    rcases h2 with h2 | h2
+                    · exact Or.inl h2
+                    · simp only at h2
+                      by_cases hk : k'' = key'
+                      · right; intro t; rw [hk, ← l3]; exact hnone t
+                      · right; intro t; rw [← l4 k'' hk]; exact h2 t
+                · intro hmore
+                  obtain ⟨n1, o, ms, n2, n3, n4⟩ := mv.next hmore
+                  simp only at n1 n3 n4
+                  have hne : k'.key ≠ key' := by
+                    intro heq; rw [heq, keyLt_irrefl] at n1; cases n1
+                  rw [l4 k'.key hne] at n3 n4
+                  exact ⟨keyLt_trans hkey n1, o, ms, n2, n3, n4⟩
+                · exact mv.done
+            · rw [if_neg hm5] at h
+              simp only [Except.ok.injEq, Prod.mk.injEq] at h
+              obtain ⟨rfl, rfl⟩ := h
+              cases hmg : st5.merged with
+              | nil => rw [hmg] at hm5; simp at hm5
+              | cons o ms =>
+                refine ⟨?_, ?_, by simp⟩
+                · intro k''
+                  show blocksFor (allRuns its' buf') k'' = _ ∨ _
+                  by_cases hk : k'' = key'
+                  · right
+                    rw [hk]
+                    exact ⟨hnil', Or.inl ⟨rfl, rfl⟩⟩
+                  · left; exact l4 k'' hk
+                · intro _
+                  show keyLt k.key key' = true ∧ _
+                  rw [← l3]
+                  refine ⟨hkey, o, ms, hmg, fact5 o (by rw [hmg]; simp), ?_⟩
+                  refine ⟨⟨T5, ?_⟩, ?_, len5, same5, l1, l2, hfresh', hcap', l7⟩
+                  · show KInv T5 st5 (o.pts ++ outPts st5.merged.tail) (restAt bl)
+                    rw [hmg] at inv5 ⊢
+                    simpa using inv5
+                  · intro x hx
+                    have : x ∈ st5.merged.tail := hx
+                    rw [hmg] at this
+                    exact fact5 x (by rw [hmg]; exact List.mem_cons_of_mem _ this)
+
+
+/-! ### the write loop over `Next` / `Read` -/
+
+/-- the blocks written for key `k`, in order -/
+def seqOf (k : Key) (seq : List (Key × OBlk V)) : List (OBlk V) :=
+  (seq.filter (fun e => decide (e.1 = k))).map (·.2)
+
+theorem seqOf_append (k : Key) (a b : List (Key × OBlk V)) : seqOf k (a ++ b) = seqOf k a ++ seqOf k b := by
+  simp [seqOf]
+
+theorem seqOf_map_same (k : Key) (outs : List (OBlk V)) : seqOf k (outs.map (fun o => (k, o))) = outs := by
+  induction outs with
+  | nil => rfl
+  | cons o os ih => simp [seqOf] at ih ⊢; exact ih
+
+theorem seqOf_map_other {k k' : Key} (h : k ≠ k') (outs : List (OBlk V)) :
+    seqOf k' (outs.map (fun o => (k, o))) = [] := by
+  induction outs with
+  | nil => rfl
+  | cons o os ih => simp [seqOf, h] at ih ⊢
+
+theorem seqOf_nil_of_ne {k : Key} {seq : List (Key × OBlk V)} (h : ∀ e ∈ seq, e.1 ≠ k) : seqOf k seq = [] := by
+  simp only [seqOf, List.map_eq_nil_iff, List.filter_eq_nil_iff, decide_eq_true_eq]
+  exact h
+
+/-- keys never decrease along the sequence -/
+def KeysSorted (seq : List (Key × OBlk V)) : Prop := seq.Pairwise (fun a b => keyLt b.1 a.1 = false)
+
+/-- what follows the current key: keys above `key`, sorted, every key with its newest-wins content -/
+structure RestOK (cfg : Cfg) (R : List (FileRuns V)) (key : Key) (rest : List (Key × OBlk V)) : Prop where
+  above : ∀ e ∈ rest, keyLt key e.1 = true
+  sorted : KeysSorted rest
+  keys : ∀ k', KeyTail cfg.size (blocksFor R k') (restAt (blocksFor R k')) [] (seqOf k' rest)
+
+theorem keyTail_none {size : Nat} {orig : List (Block V)} {target : Int → Option V}
+    (h : ∀ t, target t = none) : KeyTail size orig target [] [] :=
+  ⟨by simpa using asc_nil, fun t => by simpa using h t, by simp⟩
+
+theorem keyTail_outs_nil {size : Nat} {orig : List (Block V)} {target : Int → Option V} {outs : List (OBlk V)}
+    (kt : KeyTail size orig target [] outs) (h : ∀ t, target t = none) : outs = [] := by
+  cases outs with
+  | nil => rfl
+  | cons o os =>
+    exfalso
+    obtain ⟨a, _, ha, _⟩ := (kt.blocks o (by simp)).1
+    have hmem : a ∈ [] ++ outPts (o :: os) := by
+      simp only [List.nil_append, outPts_cons]
+      exact List.mem_append_left _ (List.mem_of_head? ha)
+    have := lookup_of_mem_asc kt.asc hmem
+    rw [← kt.content a.1, h a.1] at this
+    cases this
+
+theorem runIter_spec (cfg : Cfg) (hs : 0 < cfg.size) (rf : Nat) :
+    ∀ (n : Nat) (k : Iter V) (Oe : Pts V) (target : Int → Option V) (orig : List (Block V)),
+      CurInv cfg k Oe target orig →
+      ∀ seq, runIter cfg rf n k = .ok seq →
+        ∃ outs rest, seq = outs.map (fun o => (k.key, o)) ++ rest ∧
+          KeyTail cfg.size orig target Oe outs ∧ RestOK cfg (allRuns k.its k.buf) k.key rest := by
+  intro n
+  induction n with
+  | zero => intro k Oe target orig _ seq h; simp [runIter, throw, throwThe, MonadExceptOf.throw] at h
+  | succ n ih =>
+    intro k Oe target orig ci seq h
+    unfold runIter at h
+    simp only [bind, Except.bind, pure, Except.pure] at h
+    cases hn : Iter.next cfg rf k with
+    | error e => rw [hn] at h; simp at h
+    | ok r =>
+    obtain ⟨more, k'⟩ := r
+    rw [hn] at h
+    simp only at h
+    have nx := next_spec cfg hs rf k Oe target orig ci more k' hn
+    cases more with
+    | false =>
+      simp only [Bool.not_false, if_true, Except.ok.injEq] at h
+      subst h
+      rcases nx with ⟨hm, _⟩ | ⟨kt, mv⟩
+      · cases hm
+      · refine ⟨[], [], rfl, kt, by simp, List.Pairwise.nil, ?_⟩
+        intro k''
+        apply keyTail_none
+        intro t
+        rcases mv.runs k'' with h1 | ⟨_, h2⟩
+        · rw [← h1, mv.done rfl k'']; rfl
+        · rcases h2 with ⟨hf, _⟩ | h2
+          · cases hf
+          · exact h2 t
+    | true =>
+      simp only [Bool.not_true, Bool.false_eq_true, if_false] at h
+      cases hr : runIter cfg rf n k' with
+      | error e => rw [hr] at h; simp at h
+      | ok rest' =>
+      rw [hr] at h
+      simp only at h
+      rcases nx with ⟨_, hk', hR', o, ms, hmg, hfact, hci⟩ | ⟨kt, mv⟩
+      · -- same key
+        rw [hmg] at h
+        simp only [Except.ok.injEq] at h
+        subst h
+        obtain ⟨outs', rest'', e1, kt', ro'⟩ := ih k' (Oe ++ o.pts) target orig hci rest' hr
+        rw [hk'] at e1
+        rw [hk', hR'] at ro'
+        refine ⟨o :: outs', rest'', by rw [hk', e1]; simp, ?_, ro'⟩
+        refine ⟨?_, ?_, ?_⟩
+        · have := kt'.asc; simpa using this
+        · intro t; have := kt'.content t; simpa using this
+        · intro x hx
+          rcases List.mem_cons.mp hx with rfl | hx2
+          · exact hfact
+          · exact kt'.blocks x hx2
+      · -- a new key
+        obtain ⟨hlt, o, ms, hmg, hfact, hci⟩ := mv.next rfl
+        rw [hmg] at h
+        simp only [Except.ok.injEq] at h
+        subst h
+        obtain ⟨outs', rest'', e1, kt', ro'⟩ := ih k' o.pts _ _ hci rest' hr
+        refine ⟨[], (k'.key, o) :: rest', by simp, kt, ?_⟩
+        have hab : ∀ e ∈ rest', keyLt k'.key e.1 = true ∨ e.1 = k'.key := by
+          intro e he
+          rw [e1] at he
+          rcases List.mem_append.mp he with h1 | h1
+          · simp only [List.mem_map] at h1
+            obtain ⟨x, _, rfl⟩ := h1
+            exact Or.inr rfl
+          · exact Or.inl (ro'.above e h1)
+        refine ⟨?_, ?_, ?_⟩
+        · intro e he
+          rcases List.mem_cons.mp he with rfl | he2
+          · exact hlt
+          · rcases hab e he2 with h1 | h1
+            · exact keyLt_trans hlt h1
+            · rw [h1]; exact hlt
+        · refine List.pairwise_cons.mpr ⟨?_, ?_⟩
+          · intro e he
+            rcases hab e he with h1 | h1
+            · exact keyLt_asymm h1
+            · rw [h1]; exact keyLt_irrefl _
+          · rw [e1]
+            refine List.pairwise_append.mpr ⟨?_, ro'.sorted, ?_⟩
+            · rw [List.pairwise_map]
+              exact List.pairwise_of_forall (fun _ _ => keyLt_irrefl _)
+            · intro a ha b hb
+              simp only [List.mem_map] at ha
+              obtain ⟨x, _, rfl⟩ := ha
+              exact keyLt_asymm (ro'.above b hb)
+        · intro k''
+          by_cases hk : k'' = k'.key
+          · -- the new current key
+            rw [hk]
+            have hs1 : seqOf k'.key ((k'.key, o) :: rest') = o :: outs' := by
+              rw [e1]
+              have h0 : seqOf k'.key rest'' = [] := seqOf_nil_of_ne (fun e he heq => by
+                have := ro'.above e he; rw [heq, keyLt_irrefl] at this; cases this)
+              have : (k'.key, o) :: (outs'.map (fun o => (k'.key, o)) ++ rest'') =
+                  ((o :: outs').map (fun o => (k'.key, o))) ++ rest'' := by simp
+              rw [this, seqOf_append, seqOf_map_same, h0, List.append_nil]
+            rw [hs1]
+            refine ⟨?_, ?_, ?_⟩
+            · have := kt'.asc; simpa using this
+            · intro t; have := kt'.content t; simpa using this
+            · intro x hx
+              rcases List.mem_cons.mp hx with rfl | hx2
+              · exact hfact
+              · exact kt'.blocks x hx2
+          · -- any other key: nothing of it in the current key's output
+            have hs1 : seqOf k'' ((k'.key, o) :: rest') = seqOf k'' rest'' := by
+              rw [e1]
+              have : (k'.key, o) :: (outs'.map (fun o => (k'.key, o)) ++ rest'') =
+                  ((o :: outs').map (fun o => (k'.key, o))) ++ rest'' := by simp
+              rw [this, seqOf_append, seqOf_map_other (fun h => hk h.symm), List.nil_append]
+            rw [hs1]
+            have hk'' := ro'.keys k''
+            rcases mv.runs k'' with h1 | ⟨h1, h2⟩
+            · rw [h1] at hk''; exact hk''
+            · rw [h1] at hk''
+              have hnil : seqOf k'' rest'' = [] := keyTail_outs_nil hk'' (fun t => rfl)
+              rw [hnil]
+              rcases h2 with ⟨_, h2⟩ | h2
+              · exact absurd h2 hk
+              · exact keyTail_none h2
 
 end Influx.Model.Compact
